@@ -248,6 +248,17 @@ class Sites:
         if dschema != dexp:
             return Failure("deserialization-schema-property-order", witness=wit, extra={"result": dschema, "expected": dexp})
         if self.nm == 0:
+            from apischema.json_schema import definitions_schema
+
+            sys.modules[mod.__name__] = mod
+            try:
+                merged = definitions_schema(deserialization=[C], serialization=[C], all_refs=True)
+            finally:
+                del sys.modules[mod.__name__]
+            mprops = list(merged.get("C", {}).get("properties", {}))
+            if mprops != exp:
+                return Failure("definitions-schema-property-order", witness=wit, extra={"result": mprops, "expected": exp})
+        if self.nm == 0:
             import graphql
 
             from apischema.graphql import graphql_schema
